@@ -11,7 +11,7 @@ from ..world import BASE_CLOCK
 
 ID = "C03"
 LEVEL = "exploration"
-RUNS = {"quick": 900, "thorough": 40000}
+RUNS = {"quick": 4000, "thorough": 40000}
 RULE = ("seeded clusters: 1-6 looms on 1-4 hosts with clock skews (up to 50 min with an offset table, < 1 h without), 1-3 processes per loom, "
         "1-4 threads each, stream lengths from 0 (dump tools) / 2 (emulator) to a few hundred events; a global discrete-event scheduler "
         "picks the next thread and advances time by delta >= 0, producing ties across streams on purpose (delta = 0 with probability 1/4, "
